@@ -676,6 +676,11 @@ def gen_dag_spec(tape, max_nodes=9, allow_stochastic_observed=True):
                 cfg['meta_false'] = tape.choice('withdraw_how', ['false', 'true_then_false'])
             node['parents'] = par
             node['cfg'] = cfg
+            if kind in ('op', 'sim') and len(par) >= 2 and all(isinstance(p, str) for p in par) \
+                    and tape.chance('explicit_slots', 1, 5):
+                # the node is created without parents; each positional parent is then attached
+                # with model.add_edge(parent, child, <slot>) in a tape-chosen order
+                node['slot_order'] = tape.shuffle('slot_order', list(range(len(par))))
             # named edges (not for discrepancies: their observed twin is args_to_tuple)
             named = {}
             if kind in ('op', 'sim', 'sum') and tape.chance('named_edge', 1, 3):
@@ -801,7 +806,12 @@ def build_dag_model(elfi, spec, order=None, tag=None):
             kw['observed'] = n['observed']
         cls = {'op': elfi.Operation, 'sim': elfi.Simulator, 'sum': elfi.Summary,
                'disc': elfi.Discrepancy}[kind]
-        refs[name] = cls(op, *parents, model=m, name=name, **kw)
+        if n.get('slot_order'):
+            refs[name] = cls(op, model=m, name=name, **kw)
+            for slot in n['slot_order']:
+                m.add_edge(n['parents'][slot], name, slot)
+        else:
+            refs[name] = cls(op, *parents, model=m, name=name, **kw)
         if n['cfg'].get('use_meta'):
             refs[name].uses_meta = True
         elif n['cfg'].get('meta_false'):
@@ -854,6 +864,8 @@ def describe_dag(spec):
             d['args'] = n['args']
         else:
             d['parents'] = n['parents']
+            if n.get('slot_order'):
+                d['slot_order'] = n['slot_order']
             if n.get('named'):
                 d['named'] = n['named']
             if n['cfg'].get('use_meta'):
